@@ -10,6 +10,7 @@
 #include <cstdlib>
 #include <cstring>
 #include <deque>
+#include <filesystem>
 #include <fcntl.h>
 #include <fstream>
 #include <poll.h>
@@ -139,8 +140,8 @@ std::string RunDir()
 static void RmRf(const std::string& path)
 {
     if (path.size() < 12 || path.find("/dev/shm/verifsim.") != 0) return;
-    std::string cmd = "rm -rf '" + path + "'";
-    if (system(cmd.c_str()) != 0) {}
+    std::error_code ec;
+    std::filesystem::remove_all(path, ec);
 }
 static void DropRunDir()
 {
